@@ -508,6 +508,10 @@ func runC20(c *Ctx) {
 		c.check(okFail, "caller-fails-last", df.Pos(), "ErrFailed is returned only after all results were collected", "ErrFailed can be returned before all workers reported")
 	}
 
+	// ---------------------------------------------------------------- R7
+	c.rule("R7", "the threshold timer comes from the pool undisturbed: pooled timers are drained when they already fired", 2)
+	checkPooledTimers(c)
+
 	// ---------------------------------------------------------------- R6
 	c.rule("R6", "workers run on copies of the query context taken before the goroutine starts, with a deadline context from the caller", 4)
 	for _, w := range workers {
@@ -549,6 +553,61 @@ func runC20(c *Ctx) {
 			}
 		}
 		c.check(good, "worker-deadline:"+which, instrPos(ci), "context from makeDdlCtx(caller ctx)", "the "+which+" worker's context is not derived from the caller's deadline")
+	}
+}
+
+// checkPooledTimers (C20-R7): a pooled timer whose Stop() reports it already fired is drained before reuse.
+func checkPooledTimers(c *Ctx) {
+	for _, name := range []string{"ReleaseTimer", "ResetAndDrainTimer"} {
+		f := c.fn(relPool, "", name)
+		if f == nil {
+			continue
+		}
+		good := false
+		eachInstrDeep(f, func(g *ssa.Function, in ssa.Instruction) {
+			sel, ok := in.(*ssa.Select)
+			if !ok || sel.Blocking {
+				return
+			}
+			drains := false
+			for _, st := range sel.States {
+				if k, ok := loadedField(st.Chan); ok && k == "time.Timer.C" && st.Dir == types.RecvOnly {
+					drains = true
+				}
+			}
+			if !drains {
+				return
+			}
+			for _, gd := range guardsOfInstr(in) {
+				v, truth := gd.asBool()
+				if cl, ok := v.(*ssa.Call); ok && !truth && callName(cl) == "(*time.Timer).Stop" {
+					good = true
+				}
+			}
+		})
+		// helpers: follow one level
+		if !good {
+			eachInstr(f, func(in ssa.Instruction) {
+				if ci, ok := in.(*ssa.Call); ok {
+					if sc := staticCallee(ci); sc != nil && inMosdns(sc) {
+						eachInstr(sc, func(x ssa.Instruction) {
+							sel, ok := x.(*ssa.Select)
+							if !ok || sel.Blocking {
+								return
+							}
+							for _, gd := range guardsOfInstr(x) {
+								v, truth := gd.asBool()
+								if cl, ok := v.(*ssa.Call); ok && !truth && callName(cl) == "(*time.Timer).Stop" {
+									good = true
+								}
+							}
+						})
+					}
+				}
+			})
+		}
+		c.check(good, "timer-drained@"+name, f.Pos(), "the channel is drained exactly when Stop() reports the timer already fired",
+			"a timer that already fired is returned to the pool (or reset) without draining its channel: the next user sees the threshold as expired immediately")
 	}
 }
 
